@@ -20,6 +20,9 @@ var (
 )
 
 func verifListenPacket(network, address string) (net.PacketConn, error) {
+	if address != "" {
+		return verifListenSharedPacket(address)
+	}
 	verifListenCalls++
 	if verifListenFault {
 		return nil, errVerifFault
